@@ -112,7 +112,7 @@ def run(ctx):
         ctx.check(magic == [0x37, 0xA4, 0x30, 0xEC], R2, "magic-value", body["file"],
                   "dictionary magic must be 0xEC30A437 little-endian", observed=magic, expected=[0x37, 0xA4, 0x30, 0xEC])
         g = [x for x in ix.all_guards() if any(e.endswith("BadMagicNum") for e in x["errs"])]
-        ok = len(g) == 1 and "dictionary::MAGIC_NUM" in g[0]["raw"] and "!=" in g[0]["raw"] and "$0[..4]" in \
+        ok = len(g) == 1 and "[55, 164, 48, 236]" in g[0]["raw"] and "!=" in g[0]["raw"] and "$0[..4]" in \
             _inline_local(ix, g[0])
         ctx.check(ok, R2, "magic-compare", H.loc(body, g[0]["node"]) if g else body["file"],
                   "the first four bytes must be compared (!=) with MAGIC_NUM and rejected with BadMagicNum",
@@ -125,8 +125,10 @@ def run(ctx):
             names = hq.field_chain(c["recv"])[1]
             mx = can(c["args"][1]) if len(c["args"]) > 1 else None
             got.append((".".join(names), mx))
-        want = [("huf.table", None), ("fse.offsets", SSD + "::OF_MAX_LOG"), ("fse.match_lengths", SSD + "::ML_MAX_LOG"),
-                ("fse.literal_lengths", SSD + "::LL_MAX_LOG")]
+        from . import c14
+        ml_ = c14.SPEC["sequences_header"]["max_log"]
+        want = [("huf.table", None), ("fse.offsets", str(ml_["OF"])), ("fse.match_lengths", str(ml_["ML"])),
+                ("fse.literal_lengths", str(ml_["LL"]))]
         ctx.check(got == want, R2, "table-order", body["file"],
                   "dictionary tables must be parsed in RFC order Huffman, OF, ML, LL with the decoder's max-log constants",
                   observed=got, expected=want)
@@ -157,7 +159,7 @@ def run(ctx):
                 elif root is not None and root.get("k") == "Local" and names == ["id"]:
                     asg["id"] = _le_src(ix, n["r"])
         tail = chain[-1] + "[%s..]" % _result_name(ix, calls[-1]) if calls else "?"
-        want_asg = {"id": "$0[4..8]", "offset_hist[0]": tail + "[0..4]", "offset_hist[1]": tail + "[4..8]",
+        want_asg = {"id": "$0[4..8]", "offset_hist[0]": tail + "[..4]", "offset_hist[1]": tail + "[4..8]",
                     "offset_hist[2]": tail + "[8..12]"}
         for k, v in want_asg.items():
             ctx.check(asg.get(k) == v, R2, "le-field::" + k, body["file"],
@@ -183,8 +185,9 @@ def run(ctx):
                   observed=len(sites))
         for s in sites:
             pcs = ix.path_conditions(s)
-            tries = [p["cond"] for p in pcs if p["kind"] == "try"]
-            ok = any("BTreeMap::get(self.dicts" in t and "DictNotProvided" in t and "ok_or" in t for t in tries)
+            tries = [p["cond"] for p in pcs if p["kind"] in ("try", "ok_or", "let-else", "arm-exit")]
+            ok = any(t.startswith("some(") and "BTreeMap::get(self.dicts" in t and any(e.endswith("DictNotProvided") for e in p["errs"])
+                     for p in pcs for t in [p["cond"]] if p["kind"] in ("ok_or", "let-else", "arm-exit"))
             ctx.check(ok, R3, fn_suffix + "::lookup-dominates-init", H.loc(body, s),
                       "init_from_dict must be dominated by `self.dicts.get(..).ok_or(DictNotProvided)?`", observed=tries)
             # the dictionary handed over is the one that was looked up
@@ -208,7 +211,7 @@ def run(ctx):
         ix = hq.Index(body)
         s = hq.calls_to(body["body"], "init_from_dict")[0]
         conds = [p["cond"] for p in ix.path_conditions(s) if p["kind"] == "if"]
-        ctx.check(any("FrameHeader::dictionary_id" in c and "Some(" in c for c in conds), R3, "reset::selected-by-frame-id",
+        ctx.check(any("FrameHeader::dictionary_id" in c and c.startswith("some(") for c in conds), R3, "reset::selected-by-frame-id",
                   H.loc(body, s), "reset must select the dictionary by the frame header's dictionary id", observed=conds)
     ctx.guard(R3, "reset::selected-by-frame-id", reset_iff_id)
 
